@@ -462,9 +462,21 @@ class _BoundMethod(Abstract):
                 env[p] = Folder({}, f.repo, fn.module, fn.cls).fold(d)
         ev = Evaluator(env, f.repo, fn.module, fn.cls, f.hook)
         ev.depth = f.depth + 1
-        is_gen = any(isinstance(n, (ast.Yield, ast.YieldFrom)) for n in ast.walk(node))
+        is_gen = _is_generator(node)
         r = ev.run(body_without_docstring_(node))
         return list(ev.yielded) if is_gen else r
+
+
+_IS_GEN: Dict[int, Tuple[ast.AST, bool]] = {}
+
+
+def _is_generator(node: ast.AST) -> bool:
+    k = id(node)
+    hit = _IS_GEN.get(k)
+    if hit is None or hit[0] is not node:
+        hit = (node, any(isinstance(n, (ast.Yield, ast.YieldFrom)) for n in ast.walk(node)))
+        _IS_GEN[k] = hit
+    return hit[1]
 
 
 def body_without_docstring_(node: ast.AST) -> List[ast.stmt]:
@@ -562,7 +574,7 @@ def call_fn(ctx: Any, fn: Any, args: Sequence[Any], kwargs: Optional[Dict[str, A
                 raise Unfoldable("argument %s of %s not given" % (p_, fn.name))
             env[p_] = Folder({}, ctx.repo, fn.module, fn.cls).fold(d)
     ev = Evaluator(env, ctx.repo, fn.module, fn.cls, hook)
-    is_gen = any(isinstance(n, (ast.Yield, ast.YieldFrom)) for n in ast.walk(node))
+    is_gen = _is_generator(node)
     r = ev.run(body_without_docstring_(node))
     return list(ev.yielded) if is_gen else r
 
